@@ -11,7 +11,40 @@ package keeper
 //@ trusted
 //@ modifies st.locking.Params, st.locking.Locking, st.locking.PowerRanking, st.locking.ValidatorSet, st.locking.Validators, st.locking.Tokens, st.locking.Threshold, st.locking.Slashed, st.locking.EthTxNonce, st.locking.RewardPool, st.locking.EthTxQueue, st.locking.UnlockQueue
 
+// The locking side of the hand-over queue (C06): at most 16 claimed rewards, then at most 16 matured unlocks, first-in-first-out,
+// numbered with consecutive nonces; the popped prefixes leave the queue, nothing else does.
+// ethtx_reward / ethtx_unlock: the system transactions built by x/locking/types/ethtx.go as uninterpreted functions of
+// (record, nonce) (summaries in govc/summ_c06.go). txs_rwd(t, base, q, n, nonce): t[base+i] == ethtx_reward(q[i], nonce+i) for i < n.
+//@ smt (declare-fun ethtx_reward (Opt_T_locking_types_Reward Int) Int)
+//@ smt (declare-fun ethtx_unlock (Opt_T_locking_types_Unlock Int) Int)
+//@ smt (define-fun txs_rwd ((t Slc_Int) (base Int) (q Slc_Opt_T_locking_types_Reward) (n Int) (nonce Int)) Bool (forall ((k Int)) (! (=> (and (<= (+ (off_Slc_Int t) base) k) (< k (+ (off_Slc_Int t) base n)))
+//@       (= (select (arr_Slc_Int t) k) (ethtx_reward (select (arr_Slc_Opt_T_locking_types_Reward q) (+ (off_Slc_Opt_T_locking_types_Reward q) (- k (off_Slc_Int t) base))) (+ nonce (- k (off_Slc_Int t) base))))) :pattern ((select (arr_Slc_Int t) k)))))
+//@ smt (define-fun txs_unl ((t Slc_Int) (base Int) (q Slc_Opt_T_locking_types_Unlock) (n Int) (nonce Int)) Bool (forall ((k Int)) (! (=> (and (<= (+ (off_Slc_Int t) base) k) (< k (+ (off_Slc_Int t) base n)))
+//@       (= (select (arr_Slc_Int t) k) (ethtx_unlock (select (arr_Slc_Opt_T_locking_types_Unlock q) (+ (off_Slc_Opt_T_locking_types_Unlock q) (- k (off_Slc_Int t) base))) (+ nonce (- k (off_Slc_Int t) base))))) :pattern ((select (arr_Slc_Int t) k)))))
+
 //@ func (Keeper).DequeueLockingModuleTx
-//@ property C08 C09
-//@ trusted
+//@ property C06 C08 C09
+//@ requires counters: st.locking.EthTxNonce < 9223372036854775808
+//@ let R0 = old(st.locking.EthTxQueue.Rewards)
+//@ let U0 = old(st.locking.EthTxQueue.Unlocks)
+//@ let N0 = old(st.locking.EthTxNonce)
+//@ let nr = minint(len(old(st.locking.EthTxQueue.Rewards)), 16)
+//@ let nu = minint(len(old(st.locking.EthTxQueue.Unlocks)), 16)
+//@ ensures caps: err == nil ==> len(result) == nr + nu
+//@ ensures nonce: err == nil ==> st.locking.EthTxNonce == N0 + len(result)
+//@ ensures reward_txs: err == nil ==> txs_rwd(result, 0, R0, nr, N0)
+//@ ensures unlock_txs: err == nil ==> txs_unl(result, nr, U0, nu, N0 + nr)
+//@ ensures suffixes: err == nil ==> st.locking.EthTxQueue.Rewards == R0[nr:] && st.locking.EthTxQueue.Unlocks == U0[nu:]
+//@ ensures empty_writes_nothing: err == nil && len(result) == 0 ==> unchanged(st.locking.EthTxQueue) && unchanged(st.locking.EthTxNonce)
+//@ ensures error_returns_nothing: err != nil ==> len(result) == 0
+//@ loop 0 invariant bounds: 0 <= n && n <= 16 && n <= len(queue.Rewards)
+//@ loop 0 invariant count: len(txs) == n && txNonce == N0 + n && queue.Rewards == R0 && queue.Unlocks == U0
+//@ loop 0 invariant reward_txs: txs_rwd(txs, 0, R0, n, N0)
+//@ loop 0 decreases len(queue.Rewards) - n
+//@ loop 1 invariant bounds: 0 <= n && n <= 16 && n <= len(queue.Unlocks)
+//@ loop 1 invariant count: len(txs) == nr + n && txNonce == N0 + nr + n && queue.Rewards == R0[nr:] && queue.Unlocks == U0
+//@ loop 1 invariant reward_txs: txs_rwd(txs, 0, R0, nr, N0)
+//@ loop 1 invariant unlock_txs: txs_unl(txs, nr, U0, n, N0 + nr)
+//@ loop 1 decreases len(queue.Unlocks) - n
 //@ modifies st.locking.EthTxQueue, st.locking.EthTxNonce
+//@ nopanic
